@@ -248,7 +248,7 @@ class Lib:
     # ---- names
     def global_name(self, ex, name, st):
         if name in ("UndirectedGraph", "Independencies", "IndependenceAssertion", "DAG", "PDAG", "BayesianNetwork", "Graph",
-                    "DiGraph", "MarkovNetwork", "DynamicNode", "DynamicBayesianNetwork", "StructureScore", "TabularCPD", "ContinuousFactor"):
+                    "DiGraph", "MarkovNetwork", "DynamicNode", "DynamicBayesianNetwork", "StructureScore", "TabularCPD", "ContinuousFactor", "BaseFactor"):
             return ClassV(name)
         if name == "logger":
             return ModuleV("logger")
